@@ -703,13 +703,19 @@ def conn_chunked(rng, T):
     lines += [f"@MAIN:ZONENAME=end{rng.randint(0, 99)}"]
     unsol = []
     t = rng.choice([0.5, 28.0, 29.5])
+    sleepy = rng.random() < 0.3       # a receiver that never answers the library's probes, but reports its model name on its own account
+    if sleepy:
+        for _ in range(rng.randint(1, 3)):
+            lines.insert(rng.randrange(0, len(lines)), "@SYS:MODELNAME=RX-V" + str(rng.randint(100, 999)))
     for l in lines:
-        if "SYS:MODELNAME" in l or "SYS:VERSION" in l:
+        if ("SYS:MODELNAME" in l and not sleepy) or "SYS:VERSION" in l:
             continue
         unsol.append([round(t, 3), l])
         t += rng.choice([0.0, 0.01, 0.3, 1.0, 5.0])
     dev = {"type": "scripted", "latency": 0.02, "unsolicited": unsol, "chunk": rng.randrange(1, 10 ** 6),
            "chunk_gaps": rng.choice([[0.0002], [0.0002, 0.05, 0.5], [0.0002, 0.5, 2.0, 31.0], [29.0, 31.0, 0.1]])}
+    if sleepy:
+        dev["model"] = None
     t0 = []
     for i in range(rng.randint(0, 3)):
         t0.append(["sleep", rng.choice([0.2, 1.0, 10.0])])
